@@ -191,7 +191,7 @@ Spec == Init /\ [][Next]_vars
 
 TypeOK ==
     /\ n \in Nat /\ minPts \in Nat /\ maxIter \in Nat
-    /\ pc \in {"while", "for", "final", "done", "predicted"}
+    /\ pc \in {"while", "for", "final", "done", "predicted", "accepted"}
     /\ iter \in Nat /\ idx \in Nat
     /\ \A j \in 1..Len(clusters) : clusters[j] \subseteq 1..n
     /\ best.parent \in 0..Len(clusters)
@@ -240,6 +240,6 @@ PredictInRange ==
 
 \* one split per iteration: number of clusters = accepted splits + 1 <= iteration + 1
 OneSplitPerIteration ==
-    Len(clusters) <= iter + 1 \/ pc = "predicted"
+    Len(clusters) <= iter + 1 \/ pc \in {"predicted", "accepted"}
 
 =============================================================================
